@@ -707,11 +707,18 @@ def str_method(I, v, name, args, kwargs, node):
         cargs = [concrete_str(a.t) if isinstance(a, SStr) else concrete_int(a.t) if isinstance(a, SInt) else None for a in args]
         if cs is not None and None not in cargs and not kwargs:
             return I.reflect(getattr(cs, name)(*cargs))
+        if "maxsplit" in kwargs and len(args) == 1:
+            args = list(args) + [kwargs["maxsplit"]]
+            kwargs = {k_: v_ for k_, v_ in kwargs.items() if k_ != "maxsplit"}
         if name == "rsplit" and len(args) == 2 and concrete_int(as_int(args[1])) == 1:
             sep = args[0].t
             fn = z3.Function("py_rfind", StrS, StrS, IntS)
             r = fn(t, sep)
-            c.assume(z3.If(z3.Contains(t, sep), z3.And(r >= 0, r + z3.Length(sep) <= z3.Length(t), z3.SubString(t, r, z3.Length(sep)) == sep), r == -1))
+            # r is the LAST occurrence of sep (or -1)
+            c.assume(z3.If(z3.Contains(t, sep),
+                           z3.And(r >= 0, r + z3.Length(sep) <= z3.Length(t), z3.SubString(t, r, z3.Length(sep)) == sep,
+                                  z3.Not(z3.Contains(z3.SubString(t, r + 1, z3.Length(t) - r - 1), sep))),
+                           r == -1))
             if c.branch(r >= 0):
                 return SList([SStr(z3.SubString(t, 0, r)), SStr(z3.SubString(t, r + z3.Length(sep), z3.Length(t)))])
             return SList([v])
